@@ -401,6 +401,16 @@ def Srv.complete (s : Srv) (key : Nat) : Srv :=
 def Srv.writeReady (s : Srv) (key id : Nat) (v : Str) : Srv :=
   { s with buf := s.buf ++ [⟨key, id, v, true⟩] }
 
+/-- what every carrier constructor does on the server (`ArcResource::new_with_options`,
+`ArcOnceResource::new_with_options`, `SharedValue::new_with_encoding`; leptos_server): draw an id;
+`if blocking { defer_stream(ready) }`; `if get_is_hydrating() { write_async(id, …) }`.  Returns the
+id, the new state and whether the response stream was deferred (the only effect of `blocking`). -/
+def Srv.createCarrier (s : Srv) (blocking shared : Bool) (key : Nat) (v : Str) : Nat × Srv × Bool :=
+  let hyd := s.ctr.hyd
+  let r := s.nextId
+  let s1 := if hyd then (if shared then r.2.writeReady key r.1 v else r.2.writeAsync key r.1 v) else r.2
+  (r.1, s1, blocking)
+
 /-- the `for (id, fut) in async_data { fut.await }` loop: awaits the head future only -/
 def consumeAdvance : List Entry → List (Nat × Str) × List Entry
   | [] => ([], [])
